@@ -538,6 +538,23 @@ theorem unselected_deleted (inc : IncludeFn) (cur : Str) (bs : Blocks) (hwf : bs
   simp only [after] at h1 h2
   rw [h1, h2]
 
+/-! ### what the three kinds of head test -/
+
+/-- `.ifdef NAME` / `.ifndef NAME` look at the `.define` flags ONLY (exact spelling): symbols,
+    labels, aliases and macros of that name do not count; the state is left as it is -/
+theorem ifdef_reads_flags_only (inc : IncludeFn) (cur : Str) (incs : List Str) (st : PState) (name : Str) (ln : Nat) :
+    directiveParse inc cur incs st .ifdef (.opList [.e (.ident name)]) ln =
+      .ok (st, incs, if (alookup name st.ctx.defines).isSome then .newLine else .endIf) ∧
+    directiveParse inc cur incs st .ifndef (.opList [.e (.ident name)]) ln =
+      .ok (st, incs, if (alookup name st.ctx.defines).isSome then .endIf else .newLine) := by
+  constructor <;> (simp only [directiveParse, List.head?_cons]; cases (alookup name st.ctx.defines).isSome <;> simp)
+
+/-- `.define NAME` sets exactly that flag -/
+theorem define_sets_flag (inc : IncludeFn) (cur : Str) (incs : List Str) (st : PState) (name : Str) (ln : Nat) :
+    directiveParse inc cur incs st .define (.opList [.e (.ident name)]) ln =
+      .ok ({ st with ctx := { st.ctx with defines := ainsert name (.const 0) st.ctx.defines } }, incs, .newLine) := by
+  simp [directiveParse]
+
 /-! non-vacuity: a concrete tree with garbage in the unselected branch -/
 def exIf : Line := (0, ".if 0".toList)
 def exGarbage : Line := (1, "  garbage here ((".toList)
